@@ -972,6 +972,29 @@ func textInput(c *fw.Case) ([]byte, string) {
 		w := receiptWords[r.Intn(len(receiptWords))]
 		return []byte(w[:r.Range(0, len(w))] + string(r.Bytes(r.Range(0, 3)))), "receipt-token"
 	case 4: // concatenation headers and near misses
+		if r.Chance(1, 2) {
+			// a user data header as TS 23.040 builds it: UDHL, then information elements (id, length, data) — well formed
+			// up to the last element, which names a concatenation id (00 / 08) and is damaged: its length octet too small
+			// or too large for what it is, the content ending right behind it or inside it
+			var ies []byte
+			for n := r.Intn(3); n > 0; n-- {
+				id := byte(r.Pick(0x04, 0x05, 0x24, 0x25, 0x01, 0x70, int(r.U32()&0xff)))
+				d := r.Bytes(r.Pick(0, 1, 2, 4, 4))
+				ies = append(append(ies, id, byte(len(d))), d...)
+			}
+			last := []byte{byte(r.Pick(0x00, 0x08)), byte(r.Pick(0, 1, 2, 3, 4, 5, 0xff))}
+			last = append(last, r.Bytes(r.Pick(0, 0, 1, 2, 3, 4))...)
+			ies = append(ies, last...)
+			udhl := len(ies)
+			if r.Chance(1, 4) {
+				udhl += r.Pick(-1, 1, 2, 100)
+			}
+			b := append([]byte{byte(udhl)}, ies...)
+			if r.Chance(1, 3) {
+				b = append(b, r.Bytes(r.Range(1, 6))...)
+			}
+			return b, "udh-element-chain"
+		}
 		b := []byte{5, 0, 3, byte(r.U32()), byte(r.U32()), byte(r.U32())}
 		if r.Bool() {
 			b = []byte{6, 8, 4, byte(r.U32()), byte(r.U32()), byte(r.U32()), byte(r.U32())}
